@@ -146,7 +146,7 @@ def fam_trace(rng):
     for i in range(nt):
         u1.append(["submit", i + 1, rng.choice(pool)])
         r = rng.random()
-        if r < 0.2 and u1[-1][2] != "long":
+        if r < 0.2 and fin != "kill":          # (with never-ending tasks around, waiting for a task queued behind one would block for ever)
             u1.append(["wait", i + 1])
         elif r < 0.3:
             u1.append(["sleep", 1.0])
